@@ -42,3 +42,13 @@ Theorem C01_capstone_nonvacuous :
     /\ forallb (fun cm => mode_okb (aut cm)) cms = true /\ length cms = 2.
 Proof. exact (conj ex_src_valid ex_src_builds). Qed.
 Print Assumptions C01_capstone_nonvacuous.
+
+(* the hypotheses of the capstone as one boolean evaluated on each explored configuration (the
+   generated case files print capstone_check of the parsed configuration; the driver compares the
+   printed automata with the ones the implementation compiled) *)
+Theorem C01_capstone_check_sound :
+  forall l e, capstone_check l = Some e ->
+  exists cms sms, build_scanner l = Some cms /\ spec_of_scanner l = Some sms /\ e = map enc_cmode cms /\
+    forall tbl ops st, run_ops (impl_scanner tbl cms) st ops = run_ops (spec_scanner tbl sms) st ops.
+Proof. exact capstone_check_sound. Qed.
+Print Assumptions C01_capstone_check_sound.
